@@ -239,5 +239,12 @@ func validateExpiration(str string, date time.Time) error {
 		return s3err.GetAPIError(s3err.ErrExpiredPresignRequest)
 	}
 
+	// The validity starts at the signing date: a URL dated further ahead
+	// than the clock skew tolerated for header authentication is not
+	// valid yet (and would stay usable until that date plus its expiry)
+	if passed < -timeExpirationSec {
+		return s3err.GetAPIError(s3err.ErrRequestTimeTooSkewed)
+	}
+
 	return nil
 }
